@@ -231,6 +231,8 @@ Fixpoint wtb (E : tenv) (A : atlas) (t : gtype) (v : gval) {struct v} : bool :=
       keys_distinct (map fst es)
   | GPtr _, VPtr None => true
   | GPtr t', VPtr (Some x) => wtb E A t' x
+  | GAny, VAny None => true
+  | GIface _, VAny None => true
   | GStruct id, VStruct fs =>
       match env_fields E id with
       | Some fts =>
@@ -375,6 +377,10 @@ Qed.
 Lemma zero_of_unf E t : zero_of E t = zero (S 49) E t.
 Proof. reflexivity. Qed.
 
+(* from here on [zero_of] is only unfolded through [zero_of_unf] *)
+#[local] Opaque zero_of.
+Arguments zero_of : simpl never.
+
 Lemma zero_S_named E n i u : zero (S n) E (GNamed i u) = zero n E u.
 Proof. reflexivity. Qed.
 
@@ -385,7 +391,7 @@ Proof. reflexivity. Qed.
 
 Lemma zero_of_stable E n t :
   no_bad (zero n E t) = true -> (n <= 50)%nat -> zero_of E t = zero n E t.
-Proof. intros H Hle. unfold zero_of. apply zero_stable; assumption. Qed.
+Proof. intros H Hle. rewrite zero_of_unf. apply zero_stable; [assumption | lia]. Qed.
 
 Lemma zero_of_named E i u : no_bad (zero_of E (GNamed i u)) = true -> zero_of E (GNamed i u) = zero_of E u.
 Proof.
@@ -430,7 +436,8 @@ Lemma zero_wt E A : forall n t, no_bad (zero n E t) = true -> wt E A t (zero n E
 Proof.
   induction n as [|n IH]; intros t H; [discriminate|].
   destruct t; cbn [zero] in *; try reflexivity; try discriminate.
-  - unfold wt. cbn. rewrite repeat_length, Nat.eqb_refl. cbn. induction n0; reflexivity.
+  - destruct k; reflexivity.
+  - unfold wt. cbn. rewrite repeat_length, Nat.eqb_refl. cbn. clear H. induction n0; [reflexivity | exact IHn0].
   - unfold wt. cbn [wtb strip_named]. rewrite repeat_length, Nat.eqb_refl. cbn [andb].
     cbn [no_bad] in H. rewrite forallb_repeat in *. destruct n0; [reflexivity|]. apply IH. exact H.
   - destruct (env_fields E id) as [fts|] eqn:He; [|discriminate].
@@ -440,6 +447,9 @@ Proof.
     rewrite (IH ft) by (apply H; left; reflexivity). cbn. apply IHf. intros x Hin. apply H. right. exact Hin.
   - apply wt_strip. cbn [strip_named]. apply wt_strip. apply IH. exact H.
 Qed.
+
+Lemma zero_of_wt E A t : no_bad (zero_of E t) = true -> wt E A t (zero_of E t).
+Proof. rewrite zero_of_unf. apply zero_wt. Qed.
 
 (* ====================================================================== *)
 (* Part 4.  Key sorting: a permutation; sorting a sorted list is the identity *)
@@ -495,7 +505,7 @@ Proof.
   revert l'. induction l as [|x r IH]; intros [|x' r'] Hm Hs; try discriminate; [exact I|].
   cbn in Hm. inversion Hm as [[Hx Hr]]. cbn in Hs. destruct Hs as [Hh Ht]. cbn. split.
   - destruct r as [|y r0]; destruct r' as [|y' r0']; try discriminate; [exact I|].
-    cbn in Hr. inversion Hr as [[Hy _]]. rewrite <- Hx, <- Hy. exact Hh.
+    cbn in Hr. injection Hr as Hy _. rewrite <- Hx, <- Hy. exact Hh.
   - apply IH; assumption.
 Qed.
 
@@ -657,6 +667,9 @@ Lemma traverse_view E t v st fs w so i r :
   end.
 Proof. intros Hv. destruct Hv; subst; reflexivity. Qed.
 
+Lemma sview_so E t v st fs w so fs' : sview E t v st fs w so -> so = Some fs' -> fs' = fs.
+Proof. intros H Hs. destruct H; congruence. Qed.
+
 Lemma wt_ptr_inv E A t' v : wt E A (GPtr t') v -> v = VPtr None \/ exists x, v = VPtr (Some x) /\ wt E A t' x.
 Proof.
   unfold wt. destruct v; cbn; try discriminate. destruct o as [x|]; [|auto].
@@ -697,7 +710,7 @@ Proof.
     + exists t', id, fts, fti, (map (zero_of E) fts), true, None.
       repeat split; auto.
       * eapply sv_nil; eauto.
-      * apply wt_fields_zero. intros ft0 Hin. apply zero_wt.
+      * apply wt_fields_zero. intros ft0 Hin. apply zero_of_wt.
         rewrite forallb_forall in Hzf. apply Hzf. exact Hin.
     + destruct (wt_struct_inv E A t' x id Hx Hs) as (fts' & fs & Hxs & He' & Hwf).
       rewrite He in He'. inversion He'; subst fts'.
@@ -706,7 +719,7 @@ Proof.
   - assert (Hst : st = t) by (subst st; destruct t; try reflexivity; exfalso; eapply Hnp; reflexivity).
     rewrite Hst in *. destruct (wt_struct_inv E A t v id Hw Hs) as (fts' & fs & Hxs & He' & Hwf).
     rewrite He in He'. inversion He'; subst fts'.
-    exists t, id, fts, fti, fs, false, (Some fs). subst.
+    exists t, id, fts, fti, fs, false, (Some fs). clear Hst. subst v.
     repeat split; auto; try discriminate. eapply sv_val; eauto.
 Qed.
 
@@ -831,7 +844,7 @@ Proof.
     destruct (IH f fti fv ft Hwv Hr') as (x & Hg & Hx); [cbn in Hl; lia|].
     exists x. split; [exact Hg|].
     destruct so as [fs'|].
-    + assert (fs' = fs) by (destruct Hv; congruence). subst fs'. rewrite Hfv. exact Hx.
+    + rewrite (sview_so E t c st fs w _ fs' Hv eq_refl). rewrite Hfv. exact Hx.
     + right. split; [reflexivity|].
       rewrite (Hso eq_refl) in Hfv. rewrite (map_nth_error (zero_of E) i fts Hni) in Hfv.
       inversion Hfv; subst fv.
@@ -856,9 +869,6 @@ Proof.
       eapply wt_fields_replace; eassumption.
     + rewrite traverse_upd. rewrite (nth_error_replace_same fs i fv' fv Hfv). exact Ht'.
 Qed.
-
-Lemma sview_so E t v st fs w so fs' : sview E t v st fs w so -> so = Some fs' -> fs' = fs.
-Proof. intros H Hs. destruct H; congruence. Qed.
 
 (* a write leaves what unrelated routes reach untouched *)
 Lemma route_set_keeps E A : forall r r0 fuel t c ft nv c' x,
@@ -960,7 +970,7 @@ Proof.
       rewrite Hni in Hnj. inversion Hnj; subst ftj. rewrite Hvi in Hvj. inversion Hvj; subst vj.
       rewrite unrelated_cons in Hu.
       eapply (IH r2 f fti vi fv ft ft0 nv fv'); try eassumption.
-      * eapply wt_fields_nth; eassumption.
+      * exact (wt_fields_nth E A fts fs i fti fv Hwf Hni Hfv).
       * destruct so as [fs'|].
         -- rewrite (sview_so E t c st fs w _ fs' Hv eq_refl) in *. rewrite Hfv in Hnc. exact Hnc.
         -- rewrite (Hso eq_refl) in Hfv. rewrite (map_nth_error (zero_of E) i fts Hni) in Hfv.
@@ -971,3 +981,631 @@ Proof.
       * rewrite (Hso eq_refl). rewrite (map_nth_error (zero_of E) j fts Hnj).
         eapply traverse_none_zero; eassumption.
 Qed.
+
+(* ====================================================================== *)
+(* Part 6.  Atlas well-formedness; pointers; the first token of a value      *)
+(* ====================================================================== *)
+
+Fixpoint names_distinct (ns : list bytes) : bool :=
+  match ns with
+  | [] => true
+  | n :: r => negb (existsb (bytes_eqb n) r) && names_distinct r
+  end.
+
+Definition field_wf (E : tenv) (st : gtype) (fe : field_entry) : bool :=
+  fe_ignore fe ||
+  (route_okb E st (fe_route fe) (fe_type fe) && no_bad (zero_of E (fe_type fe)) &&
+   Nat.ltb (length (fe_route fe)) 50).
+
+(* stage 2: struct entries only.  Every non-ignored field's route resolves in E
+   to exactly fe_type; serial names are pairwise distinct; the routes of the
+   non-ignored fields are non-empty and pairwise unrelated. *)
+Definition entry_wf (E : tenv) (e : atlas_entry) : bool :=
+  match ae_kind e with
+  | EStruct fields =>
+      match strip_named (ae_type e) with GStruct _ => true | _ => false end &&
+      no_bad (zero_of E (ae_type e)) &&
+      forallb (field_wf E (ae_type e)) fields &&
+      names_distinct (map fe_name fields) &&
+      routes_ok fields
+  | _ => false
+  end.
+
+Definition atlas_wf (E : tenv) (A : atlas) : bool := forallb (entry_wf E) (a_entries A).
+
+(* types whose values never marshal as Null *)
+Definition non_nullable (t : gtype) : bool :=
+  match strip_named t with
+  | GPtr _ | GSlice _ | GMap _ _ | GBytes | GAny | GIface _ | GBad => false
+  | _ => true
+  end.
+
+(* omitempty fields whose emptiness survives the round trip *)
+Definition omit_type_ok (t : gtype) : bool :=
+  match strip_named t with
+  | GPtr t' => non_nullable t'
+  | GAny | GIface _ | GStruct _ | GBad => false
+  | _ => true
+  end.
+
+Definition omit_ok (A : atlas) : bool :=
+  forallb (fun e =>
+     match ae_kind e with
+     | EStruct fields =>
+         forallb (fun fe => fe_ignore fe || negb (fe_omit fe) || omit_type_ok (fe_type fe)) fields
+     | _ => true
+     end) (a_entries A).
+
+Lemma atlas_wf_entry E A t e :
+  atlas_wf E A = true -> atlas_get A t = Some e -> entry_wf E e = true /\ ae_type e = t.
+Proof.
+  intros Hwf Hg. split; [|eapply atlas_get_type; exact Hg].
+  unfold atlas_wf in Hwf. rewrite forallb_forall in Hwf. apply Hwf. eapply atlas_get_In. exact Hg.
+Qed.
+
+Lemma entry_wf_struct E e :
+  entry_wf E e = true ->
+  exists fields id, ae_kind e = EStruct fields /\ strip_named (ae_type e) = GStruct id /\
+    no_bad (zero_of E (ae_type e)) = true /\
+    forallb (field_wf E (ae_type e)) fields = true /\
+    names_distinct (map fe_name fields) = true /\ routes_ok fields = true.
+Proof.
+  unfold entry_wf. destruct (ae_kind e) as [fields| | |]; try discriminate.
+  intros H. repeat (apply andb_true_iff in H; destruct H as [H ?]).
+  destruct (strip_named (ae_type e)) eqn:Hs; try discriminate.
+  exists fields, id. repeat split; assumption.
+Qed.
+
+(* ---------- pointers ------------------------------------------------------------- *)
+
+Lemma peel_ptr t : peel (GPtr t) = (S (fst (peel t)), snd (peel t)).
+Proof. cbn. destruct (peel t). reflexivity. Qed.
+
+Lemma peel_base_not_ptr : forall t n base, peel t = (n, base) -> forall t', base <> GPtr t'.
+Proof.
+  induction t; intros pn base H t'; try (cbn in H; inversion H; subst; discriminate).
+  rewrite peel_ptr in H. inversion H; subst. eapply IHt. apply surjective_pairing.
+Qed.
+
+Lemma peel_zero_base : forall t base, peel t = (O, base) -> base = t.
+Proof.
+  intros t base H. destruct t; cbn in H; try (inversion H; reflexivity).
+  destruct (peel t); discriminate.
+Qed.
+
+Lemma nullish_wrap n : forall v, nullish (wrap_ptrs n v) = nullish v.
+Proof. induction n; intros v; cbn; auto. Qed.
+
+Lemma peel_deref_wt E A : forall t v n base,
+  peel t = (n, base) -> wt E A t v ->
+  (deref n v = None /\ nullish v = true /\ exists x, v = VPtr x) \/
+  (exists bv, deref n v = Some bv /\ wt E A base bv /\ v = wrap_ptrs n bv).
+Proof.
+  induction t; intros v pn base Hp Hw;
+    try (cbn in Hp; inversion Hp; subst; right; exists v; repeat split; auto; fail).
+  rewrite peel_ptr in Hp. inversion Hp; subst. clear Hp.
+  destruct (wt_ptr_inv E A t v Hw) as [Hv | [x [Hv Hx]]]; subst.
+  - left. repeat split; eauto.
+  - destruct (IHt x (fst (peel t)) (snd (peel t)) (surjective_pairing _) Hx) as [(Hd & Hn & _) | (bv & Hd & Hb & Hv)].
+    + left. cbn. repeat split; eauto.
+    + right. exists bv. cbn. repeat split; auto. rewrite <- Hv. reflexivity.
+Qed.
+
+Lemma inner_cur_O E t v : inner_cur E 0 t v = v.
+Proof. reflexivity. Qed.
+
+Lemma inner_cur_S_nil E k t' v :
+  (forall x, v <> VPtr (Some x)) -> inner_cur E (S k) (GPtr t') v = inner_cur E k t' (zero_of E t').
+Proof. intros H. destruct v; try reflexivity. destruct o; [exfalso; eapply H; reflexivity | reflexivity]. Qed.
+
+Lemma inner_cur_zero E : forall t n base,
+  peel t = (n, base) -> inner_cur E n t (zero_of E t) = zero_of E base.
+Proof.
+  induction t; intros pn base Hp; try (cbn in Hp; inversion Hp; subst; apply inner_cur_O).
+  rewrite peel_ptr in Hp. inversion Hp; subst. clear Hp.
+  rewrite zero_of_ptr. rewrite inner_cur_S_nil by discriminate. apply IHt. apply surjective_pairing.
+Qed.
+
+Lemma wt_wrap E A : forall t n base bv,
+  peel t = (n, base) -> wt E A base bv -> wt E A t (wrap_ptrs n bv).
+Proof.
+  induction t; intros pn base bv Hp Hw; try (cbn in Hp; inversion Hp; subst; exact Hw).
+  rewrite peel_ptr in Hp. inversion Hp; subst. clear Hp. cbn [wrap_ptrs].
+  unfold wt. cbn [wtb strip_named]. apply IHt with (base := snd (peel t)); [apply surjective_pairing | exact Hw].
+Qed.
+
+Lemma req_wrap E A : forall t n base bv bv',
+  peel t = (n, base) -> req E A base bv bv' -> req E A t (wrap_ptrs n bv) (wrap_ptrs n bv').
+Proof.
+  induction t; intros pn base bv bv' Hp Hr; try (cbn in Hp; inversion Hp; subst; exact Hr).
+  rewrite peel_ptr in Hp. inversion Hp; subst. clear Hp. cbn [wrap_ptrs].
+  apply req_ptr. apply IHt with (base := snd (peel t)); [apply surjective_pairing | exact Hr].
+Qed.
+
+(* ---------- the first token -------------------------------------------------------- *)
+
+Definition vstart (v : tokv) : bool := match v with ArrClose | MapClose => false | _ => true end.
+
+Lemma marshal_starts A f t v ts :
+  marshal A f t v = MOk ts -> exists tk tg r, ts = Tok tk tg :: r /\ vstart tk = true.
+Proof.
+  intros H. destruct (marshal_wf A f t v ts H) as (n & Hn & _). subst ts.
+  destruct n as [tg x]. destruct x; cbn; eexists _, _, _; split; reflexivity.
+Qed.
+
+Section NullFirst.
+  Variable E : tenv.
+  Variable A : atlas.
+  Hypothesis Hwf : atlas_wf E A = true.
+
+  Definition nf_res (v : gval) (ts : list token) : Prop :=
+    forall tg r, ts = Tok Null tg :: r -> r = [] /\ tg = None /\ nullish v = true.
+
+  Definition nf_all (f : nat) : Prop :=
+    (forall t v ts, wt E A t v -> marshal A f t v = MOk ts -> nf_res v ts) /\
+    (forall t v ts, wt E A t v -> marshal_bare A f t v = MOk ts -> nf_res v ts) /\
+    (forall t v ts, wt E A t v -> marshal_kind A f t v = MOk ts -> nf_res v ts).
+
+  Lemma nf_zero : nf_all 0.
+  Proof. repeat split; intros; discriminate. Qed.
+
+  Lemma nf_step f : nf_all f -> nf_all (S f).
+  Proof.
+    intros (Hm & Hb & Hk). repeat split.
+    - intros t v ts Hw H. rewrite marshal_S in H. destruct (peel t) as [n base] eqn:Hp.
+      destruct (peel_deref_wt E A t v n base Hp Hw) as [(Hd & Hn & _) | (bv & Hd & Hwb & Hv)]; rewrite Hd in H.
+      + inversion H; subst. intros tg r Hq. inversion Hq; subst. auto.
+      + intros tg r Hq. destruct (Hb base bv ts Hwb H tg r Hq) as (H1 & H2 & H3).
+        repeat split; auto. rewrite Hv, nullish_wrap. exact H3.
+    - intros t v ts Hw H. rewrite marshal_bare_S in H.
+      destruct (is_unnamed_prim t); [eapply Hk; eassumption|].
+      destruct (atlas_get A t) as [e|] eqn:Hg.
+      + destruct (atlas_wf_entry E A t e Hwf Hg) as [He _].
+        destruct (entry_wf_struct E e He) as (fields & id & Hkd & _).
+        destruct f as [|f']; [discriminate|]. rewrite marshal_entry_S, Hkd in H. cbv zeta in H.
+        apply mprepend_ok in H. destruct H as (ts' & _ & Hts). subst ts.
+        intros tg r Hq. discriminate.
+      + eapply Hk; [|exact H]. apply wt_strip. exact Hw.
+    - intros t v ts Hw H. rewrite marshal_kind_S in H. intros tg r Hq. subst ts.
+      destruct t; destruct v; try discriminate;
+        try (destruct o as [x|]; try discriminate);
+        try (inversion H; subst; auto; fail);
+        try (apply mprepend_ok in H; destruct H as (ts' & _ & Hts); discriminate).
+      + (* map *)
+        destruct f as [|f']; [discriminate|]. rewrite marshal_map_S in H.
+        destruct (map_stringer A t1); [|discriminate]. cbv zeta in H.
+        destruct (existsb _ _); [discriminate|].
+        apply mprepend_ok in H; destruct H as (ts' & _ & Hts); discriminate.
+      + destruct f as [|f']; [discriminate|]. rewrite marshal_map_S in H.
+        destruct (map_stringer A t1); [|discriminate]. cbv zeta in H.
+        destruct (existsb _ _); [discriminate|]. inversion H; subst. auto.
+      + (* any *) destruct x as [dt dv]. unfold wt in Hw. cbn in Hw. discriminate.
+      + destruct x as [dt dv]. unfold wt in Hw. cbn in Hw. discriminate.
+  Qed.
+
+  Lemma nf_all_holds f : nf_all f.
+  Proof. induction f; [apply nf_zero | apply nf_step; assumption]. Qed.
+
+  Lemma marshal_bare_null f t v tg r :
+    wt E A t v -> marshal_bare A f t v = MOk (Tok Null tg :: r) -> r = [] /\ tg = None /\ nullish v = true.
+  Proof. intros Hw H. destruct (nf_all_holds f) as (_ & Hb & _). eapply Hb; eauto. Qed.
+End NullFirst.
+
+(* ====================================================================== *)
+(* Part 7.  Helper lemmas for the main induction                             *)
+(* ====================================================================== *)
+
+(* [uconv g r]: g yields r for all sufficiently large fuel *)
+Definition uconv (g : nat -> ures) (r : ures) : Prop := exists F, forall f, (F <= f)%nat -> g f = r.
+
+Lemma uconv_const r : uconv (fun _ => r) r.
+Proof. exists O. reflexivity. Qed.
+
+Lemma uconv_S (G g : nat -> ures) r : (forall f, G (S f) = g f) -> uconv g r -> uconv G r.
+Proof.
+  intros HG [F HF]. exists (S F). intros [|f] Hle; [lia|]. rewrite HG. apply HF. lia.
+Qed.
+
+Lemma uconv_bind (g : nat -> ures) (k : nat -> gval -> list token -> ures) v rest r :
+  uconv g (UOk v rest) -> uconv (fun f => k f v rest) r -> uconv (fun f => ubind (g f) (k f)) r.
+Proof.
+  intros [F1 H1] [F2 H2]. exists (max F1 F2). intros f Hle.
+  rewrite H1 by lia. cbn. apply H2. lia.
+Qed.
+
+Lemma uconv_ext (g g' : nat -> ures) r : (forall f, g' f = g f) -> uconv g r -> uconv g' r.
+Proof. intros He [F HF]. exists F. intros f Hle. rewrite He. apply HF. exact Hle. Qed.
+
+(* the current value does not hold a map to merge into *)
+Definition mblank (cur : gval) : bool := match cur with GVMap (Some _) => false | _ => true end.
+
+Lemma mblank_zero E : forall n t, mblank (zero n E t) = true.
+Proof.
+  induction n as [|n IH]; intros t; [reflexivity|].
+  destruct t; cbn [zero]; try reflexivity.
+  - destruct (env_fields E id); reflexivity.
+  - apply IH.
+Qed.
+
+Definition is_primk (t : gtype) : bool :=
+  match t with GBool | GNum _ | GF32 | GF64 | GStr | GBytes | GByteArr _ => true | _ => false end.
+
+(* primitives: one token, read back to the same value *)
+Lemma prim_rt E A f t v ts cur rest :
+  is_primk t = true -> wt E A t v -> marshal_kind A (S f) t v = MOk ts ->
+  exists tok, ts = [tok] /\ uprim t cur (tok :: rest) = UOk v rest /\ atom v = true.
+Proof.
+  intros Hp Hw H. rewrite marshal_kind_S in H. unfold wt in Hw.
+  destruct t; try discriminate; destruct v; try discriminate; cbn in Hw.
+  - inversion H; subst. eexists. repeat split.
+  - inversion H; subst. eexists. split; [reflexivity|]. split; [|reflexivity].
+    cbn. destruct (ik_signed k); rewrite Hw; reflexivity.
+  - inversion H; subst. eexists. split; [reflexivity|]. split; [|reflexivity].
+    cbn. apply Z.eqb_eq in Hw. rewrite Hw. reflexivity.
+  - inversion H; subst. eexists. repeat split.
+  - inversion H; subst. eexists. repeat split.
+  - destruct o; inversion H; subst; eexists; repeat split.
+  - inversion H; subst. eexists. split; [reflexivity|]. split; [|reflexivity].
+    cbn. apply andb_true_iff in Hw. destruct Hw as [Hl _]. rewrite Hl. reflexivity.
+Qed.
+
+Lemma unnamed_prim_primk t : is_unnamed_prim t = true -> is_primk t = true /\ strip_named t = t.
+Proof. destruct t; cbn; intros H; try discriminate; auto. Qed.
+
+Lemma unmarshal_kind_prim E A f t cur ts :
+  is_primk t = true -> unmarshal_kind E A (S f) t cur ts = uprim t cur ts.
+Proof. intros H. rewrite unmarshal_kind_S. destruct t; try discriminate; reflexivity. Qed.
+
+Lemma unmarshal_S_ptr E A f t n base cur tk tg r :
+  peel t = (S n, base) -> tk <> Null ->
+  unmarshal E A (S f) t cur (Tok tk tg :: r) =
+  ubind (unmarshal_bare E A f base (inner_cur E (S n) t cur) (Tok tk tg :: r))
+        (fun v r => UOk (wrap_ptrs (S n) v) r).
+Proof.
+  intros Hp Hn. rewrite unmarshal_S, Hp. destruct tk; try reflexivity. contradiction.
+Qed.
+
+Lemma unmarshal_slice_val E A f et acc tk tg r :
+  vstart tk = true ->
+  unmarshal_slice E A (S f) et acc (Tok tk tg :: r) =
+  ubind (unmarshal E A f et (zero_of E et) (Tok tk tg :: r)) (fun x r => unmarshal_slice E A f et (x :: acc) r).
+Proof. intros H. rewrite unmarshal_slice_S. destruct tk; try reflexivity; discriminate. Qed.
+
+Lemma unmarshal_array_val E A f n et acc tk tg r :
+  vstart tk = true -> (length acc < n)%nat ->
+  unmarshal_array E A (S f) n et acc (Tok tk tg :: r) =
+  ubind (unmarshal E A f et (zero_of E et) (Tok tk tg :: r)) (fun x r => unmarshal_array E A f n et (x :: acc) r).
+Proof.
+  intros H Hl. rewrite unmarshal_array_S.
+  assert (Hle : Nat.leb n (length acc) = false) by (apply Nat.leb_gt; exact Hl).
+  destruct tk; try discriminate; rewrite Hle; reflexivity.
+Qed.
+
+Lemma peel_S_ptr t n base : peel t = (S n, base) -> exists t', t = GPtr t'.
+Proof. destruct t; cbn; intros H; try discriminate. eauto. Qed.
+
+Lemma peel_nonptr t : (forall t', t <> GPtr t') -> peel t = (O, t).
+Proof. intros H. destruct t; try reflexivity. exfalso. eapply H. reflexivity. Qed.
+
+Lemma deref_wrap n : forall v, deref n (wrap_ptrs n v) = Some v.
+Proof. induction n; intros v; cbn; auto. Qed.
+
+Lemma existsb_false {X} (p : X -> bool) l : (forall x, In x l -> p x = false) -> existsb p l = false.
+Proof.
+  induction l as [|x r IH]; intros H; [reflexivity|]. cbn.
+  rewrite (H x (or_introl eq_refl)). cbn. apply IH. intros y Hy. apply H. right. exact Hy.
+Qed.
+
+Lemma Forall2_In_l {X Y} (R : X -> Y -> Prop) l l' x :
+  Forall2 R l l' -> In x l -> exists y, In y l' /\ R x y.
+Proof.
+  induction 1 as [|a b l l' Hab H IH]; intros Hin; [contradiction|].
+  destruct Hin as [-> | Hin]; [exists b; split; [left; reflexivity | exact Hab]|].
+  destruct (IH Hin) as (y & Hy & Hr). exists y. split; [right; exact Hy | exact Hr].
+Qed.
+
+Lemma Forall2_In_r {X Y} (R : X -> Y -> Prop) l l' y :
+  Forall2 R l l' -> In y l' -> exists x, In x l /\ R x y.
+Proof.
+  induction 1 as [|a b l l' Hab H IH]; intros Hin; [contradiction|].
+  destruct Hin as [-> | Hin]; [exists a; split; [left; reflexivity | exact Hab]|].
+  destruct (IH Hin) as (x & Hx & Hr). exists x. split; [right; exact Hx | exact Hr].
+Qed.
+
+(* ---------- string map keys ---------------------------------------------------- *)
+
+Definition key_bytes (k : gval) : bytes := match k with GVStr s => s | _ => [] end.
+Definition sk (es : list (gval * gval)) : list (bytes * gval) :=
+  map (fun kv => (key_bytes (fst kv), snd kv)) es.
+Definition str_stringer : gval -> option bytes := fun k => match k with GVStr s => Some s | _ => None end.
+
+Lemma wt_string_kind E A kt k : is_string_kind kt = true -> wt E A kt k -> exists s, k = GVStr s.
+Proof.
+  unfold is_string_kind, wt. intros Hk Hw.
+  destruct (strip_named kt) eqn:Hs; try discriminate.
+  destruct k; cbn [wtb] in Hw; rewrite Hs in Hw; try discriminate. eauto.
+Qed.
+
+Lemma sorted_str_eq mode es :
+  map_sorted mode (map_keyed str_stringer es) = sort_keys (key_ltb mode) (sk es).
+Proof.
+  unfold map_sorted, map_keyed, sk. rewrite map_map. f_equal.
+  apply map_ext. intros [k x]. cbn. destruct k; reflexivity.
+Qed.
+
+Lemma keys_distinct_NoDup E A kt (es : list (gval * gval)) :
+  is_string_kind kt = true -> (forall kv, In kv es -> wt E A kt (fst kv)) ->
+  keys_distinct (map fst es) = true -> NoDup (map fst (sk es)).
+Proof.
+  intros Hk. induction es as [|[k x] es IH]; intros Hw Hd; cbn; [constructor|].
+  cbn in Hd. apply andb_true_iff in Hd. destruct Hd as [Hn Hd]. constructor.
+  - intros Hin. unfold sk in Hin. rewrite map_map in Hin. cbn in Hin.
+    apply in_map_iff in Hin. destruct Hin as ([k' x'] & Hq & Hin'). cbn in Hq.
+    destruct (wt_string_kind E A kt k Hk (Hw (k, x) (or_introl eq_refl))) as [s ->].
+    destruct (wt_string_kind E A kt k' Hk (Hw (k', x') (or_intror Hin'))) as [s' ->].
+    cbn in Hq. subst s'. apply negb_true_iff in Hn.
+    assert (Hc : existsb (gval_key_eqb (GVStr s)) (map fst es) = true).
+    { apply existsb_exists. exists (GVStr s). split; [|cbn; apply bytes_eqb_refl].
+      apply in_map_iff. exists (GVStr s, x'). auto. }
+    congruence.
+  - apply IH; [|exact Hd]. intros kv Hin. apply Hw. right. exact Hin.
+Qed.
+
+Lemma keys_distinct_strs (l : list bytes) : NoDup l -> keys_distinct (map GVStr l) = true.
+Proof.
+  induction 1 as [|s l Hn Hd IH]; [reflexivity|]. cbn. rewrite IH, andb_true_r.
+  apply negb_true_iff. apply existsb_false. intros k Hin.
+  apply in_map_iff in Hin. destruct Hin as (s' & <- & Hin). cbn.
+  destruct (bytes_eqb s s') eqn:Hq; [|reflexivity]. apply bytes_eqb_eq in Hq. subst. contradiction.
+Qed.
+
+(* stage 2: map keys are strings *)
+Lemma stringer_strings E A kt str :
+  atlas_wf E A = true -> map_stringer A kt = Some str ->
+  is_string_kind kt = true /\ str = str_stringer /\ key_destringer A kt = Some (fun s => Some (GVStr s)).
+Proof.
+  intros Hwf. unfold map_stringer, key_destringer.
+  destruct (is_string_kind kt) eqn:Hk.
+  - intros H. inversion H. auto.
+  - destruct (strip_named kt); try discriminate.
+    destruct (atlas_get A kt) as [e|] eqn:Hg; [|discriminate].
+    destruct (atlas_wf_entry E A kt e Hwf Hg) as [He _].
+    destruct (entry_wf_struct E e He) as (fields & id' & Hkd & _).
+    destruct e as [ty tg kd]. cbn in Hkd. subst kd. discriminate.
+Qed.
+
+(* ---------- struct fields ------------------------------------------------------- *)
+
+Lemma find_by_name (fields : list field_entry) fe :
+  names_distinct (map fe_name fields) = true -> In fe fields ->
+  find (fun fe' => bytes_eqb (fe_name fe') (fe_name fe)) fields = Some fe.
+Proof.
+  induction fields as [|x l IH]; intros Hd Hin; [contradiction|].
+  cbn in Hd. apply andb_true_iff in Hd. destruct Hd as [Hn Hd]. cbn.
+  destruct (bytes_eqb (fe_name x) (fe_name fe)) eqn:Hq.
+  - destruct Hin as [-> | Hin]; [reflexivity|]. apply bytes_eqb_eq in Hq.
+    apply negb_true_iff in Hn.
+    assert (Hc : existsb (bytes_eqb (fe_name x)) (map fe_name l) = true).
+    { apply existsb_exists. exists (fe_name fe). split; [apply in_map; exact Hin|].
+      rewrite Hq. apply bytes_eqb_refl. }
+    congruence.
+  - destruct Hin as [-> | Hin]; [rewrite bytes_eqb_refl in Hq; discriminate|]. apply IH; assumption.
+Qed.
+
+Lemma prefix_free_In {X} (g : X -> list nat) : forall l a b,
+  prefix_free (map g l) = true -> In a l -> In b l -> a <> b -> unrelated (g a) (g b) = true.
+Proof.
+  induction l as [|x l IH]; intros a b Hp Ha Hb Hne; [contradiction|].
+  cbn in Hp. apply andb_true_iff in Hp. destruct Hp as [Hf Hp]. rewrite forallb_forall in Hf.
+  destruct Ha as [-> | Ha]; destruct Hb as [-> | Hb].
+  - contradiction.
+  - apply Hf. apply in_map. exact Hb.
+  - rewrite unrelated_sym. apply Hf. apply in_map. exact Ha.
+  - apply IH; assumption.
+Qed.
+
+Lemma prefix_free_filter {X} (g : X -> list nat) (p q : X -> bool) : forall l,
+  (forall x, p x = true -> q x = true) ->
+  prefix_free (map g (filter q l)) = true -> prefix_free (map g (filter p l)) = true.
+Proof.
+  intros Hpq. induction l as [|x l IH]; intros H; [reflexivity|]. cbn in *.
+  destruct (p x) eqn:Hp.
+  - rewrite (Hpq x Hp) in H. cbn in *. apply andb_true_iff in H. destruct H as [Hf H].
+    apply andb_true_iff. split; [|apply IH; exact H].
+    rewrite forallb_forall in *. intros r Hin. apply Hf.
+    apply in_map_iff in Hin. destruct Hin as (y & <- & Hy). apply in_map.
+    apply filter_In in Hy. destruct Hy as [Hy1 Hy2]. apply filter_In. split; [exact Hy1 | apply Hpq; exact Hy2].
+  - destruct (q x); [|apply IH; exact H]. cbn in H. apply andb_true_iff in H. apply IH. apply H.
+Qed.
+
+Definition blankr (E : tenv) (r0 : list nat) (ft0 : gtype) (c : gval) : Prop :=
+  traverse r0 c = None \/ traverse r0 c = Some (zero_of E ft0).
+
+Lemma blank_at_iff E fe c : blank_at E fe c <-> blankr E (fe_route fe) (fe_type fe) c.
+Proof.
+  unfold blank_at, blankr. destruct (traverse (fe_route fe) c); split; intros H; auto.
+  - right. congruence.
+  - destruct H as [H|H]; [discriminate | congruence].
+Qed.
+
+(* ---------- emptiness across the round trip ----------------------------------- *)
+
+Lemma non_nullable_not_nullish E A t x : wt E A t x -> non_nullable t = true -> nullish x = false.
+Proof.
+  unfold wt, non_nullable. intros Hw Hn.
+  destruct x; try reflexivity; cbn [wtb] in Hw; destruct (strip_named t); try discriminate;
+    destruct o; try discriminate; reflexivity.
+Qed.
+
+Lemma req_nonempty E A ft fv fv' :
+  req E A ft fv fv' -> wt E A ft fv -> omit_type_ok ft = true -> is_empty fv = false -> is_empty fv' = false.
+Proof.
+  intros Hr Hw Ho He. inversion Hr; subst; try exact He.
+  - inversion H0; subst; [discriminate He | reflexivity].
+  - inversion H0; subst; [discriminate He | reflexivity].
+  - destruct es; destruct es'; try discriminate; reflexivity.
+  - reflexivity.
+  - unfold omit_type_ok in Ho. cbn [strip_named] in Ho.
+    destruct (wt_ptr_inv E A t x Hw) as [Hv | [y [Hv Hy]]]; [discriminate|]. inversion Hv; subst y.
+    rewrite (non_nullable_not_nullish E A t x Hy Ho) in H. discriminate.
+  - unfold wt in Hw. rewrite wt_struct_eq in Hw. unfold omit_type_ok in Ho.
+    destruct (strip_named ft); discriminate.
+Qed.
+
+Lemma is_empty_zero E A ft fv :
+  wt E A ft fv -> is_empty fv = true -> omit_type_ok ft = true -> no_bad (zero_of E ft) = true ->
+  is_empty (zero_of E ft) = true.
+Proof.
+  intros Hw He Ho Hnb. rewrite (zero_of_strip E ft Hnb). unfold omit_type_ok in Ho. unfold wt in Hw.
+  destruct (strip_named ft) eqn:Hs; try discriminate; rewrite zero_of_unf; try reflexivity.
+  - destruct fv; cbn [wtb] in Hw; rewrite Hs in Hw; try discriminate.
+    apply andb_true_iff in Hw. destruct Hw as [Hl _]. apply Nat.eqb_eq in Hl.
+    destruct s; [|discriminate]. cbn in Hl. subst n. reflexivity.
+  - destruct fv; cbn [wtb] in Hw; rewrite Hs in Hw; try discriminate.
+    apply andb_true_iff in Hw. destruct Hw as [Hl _]. apply Nat.eqb_eq in Hl.
+    destruct l; [|discriminate]. cbn in Hl. subst n. reflexivity.
+Qed.
+
+(* ====================================================================== *)
+(* Part 8.  The main induction (on the fuel of the marshaller)               *)
+(* ====================================================================== *)
+
+Section Main.
+  Variable E : tenv.
+  Variable A : atlas.
+  Hypothesis Hwf : atlas_wf E A = true.
+
+  (* the re-marshalling statements hold under this extra hypothesis *)
+  Definition rmh : Prop := omit_ok A = true.
+
+  Definition P_marshal (f : nat) : Prop :=
+    forall t v ts, wt E A t v -> marshal A f t v = MOk ts ->
+    exists v', req E A t v v' /\ wt E A t v' /\
+      (forall rest, uconv (fun f' => unmarshal E A f' t (zero_of E t) (ts ++ rest)) (UOk v' rest)) /\
+      (rmh -> marshal A f t v' = MOk ts).
+
+  Definition P_bare (f : nat) : Prop :=
+    forall t v ts, wt E A t v -> marshal_bare A f t v = MOk ts ->
+    exists v', req E A t v v' /\ wt E A t v' /\
+      (forall rest, uconv (fun f' => unmarshal_bare E A f' t (zero_of E t) (ts ++ rest)) (UOk v' rest)) /\
+      (rmh -> marshal_bare A f t v' = MOk ts).
+
+  Definition P_kind (f : nat) : Prop :=
+    forall t v ts, wt E A t v -> marshal_kind A f (strip_named t) v = MOk ts ->
+    exists v', req E A t v v' /\ wt E A t v' /\
+      (forall cur rest, mblank cur = true ->
+         uconv (fun f' => unmarshal_kind E A f' (strip_named t) cur (ts ++ rest)) (UOk v' rest)) /\
+      (rmh -> marshal_kind A f (strip_named t) v' = MOk ts).
+
+  Definition P_items (f : nat) : Prop :=
+    forall et l ts, Forall (wt E A et) l -> marshal_items A f et l = MOk ts ->
+    exists l', Forall2 (fun x x' => req E A et x x' /\ wt E A et x') l l' /\
+      (forall acc rest,
+         uconv (fun f' => unmarshal_slice E A f' et acc (ts ++ rest)) (UOk (VSlice (Some (rev acc ++ l'))) rest)) /\
+      (forall n acc rest, (length acc + length l <= n)%nat ->
+         uconv (fun f' => unmarshal_array E A f' n et acc (ts ++ rest))
+               (UOk (GVArr (rev acc ++ l' ++ repeat (zero_of E et) (n - (length acc + length l)))) rest)) /\
+      (rmh -> marshal_items A f et l' = MOk ts).
+
+  Definition P_entries (f : nat) : Prop :=
+    forall vt (es : list (bytes * gval)) ts,
+      Forall (fun p => wt E A vt (snd p)) es -> marshal_entries A f vt es = MOk ts ->
+    exists es', Forall2 (fun p p' => fst p = fst p' /\ req E A vt (snd p) (snd p') /\ wt E A vt (snd p')) es es' /\
+      (forall destr (kf : bytes -> gval) acc rest,
+         (forall p, In p es -> destr (fst p) = Some (kf (fst p))) ->
+         NoDup (map fst es) ->
+         (forall p q, In p es -> In q acc -> gval_key_eqb (fst q) (kf (fst p)) = false) ->
+         (forall p q, In p es -> In q es -> fst p <> fst q -> gval_key_eqb (kf (fst q)) (kf (fst p)) = false) ->
+         uconv (fun f' => unmarshal_map_entries E A f' destr vt acc (ts ++ rest))
+               (UOk (GVMap (Some (acc ++ map (fun p => (kf (fst p), snd p)) es'))) rest)) /\
+      (rmh -> marshal_entries A f vt es' = MOk ts).
+
+  Definition P_map (f : nat) : Prop :=
+    forall mode t kt vt o ts, strip_named t = GMap kt vt -> wt E A t (GVMap o) ->
+      marshal_map A f mode kt vt o = MOk ts ->
+    exists o', req E A t (GVMap o) (GVMap o') /\ wt E A t (GVMap o') /\
+      (forall cur rest, mblank cur = true ->
+         uconv (fun f' => unmarshal_map E A f' kt vt cur (ts ++ rest)) (UOk (GVMap o') rest)) /\
+      (rmh -> marshal_map A f mode kt vt o' = MOk ts).
+
+  Definition P_entry (f : nat) : Prop :=
+    forall e v ts, atlas_get A (ae_type e) = Some e -> wt E A (ae_type e) v ->
+      marshal_entry A f e v = MOk ts ->
+    exists v', req E A (ae_type e) v v' /\ wt E A (ae_type e) v' /\
+      (forall rest, uconv (fun f' => unmarshal_entry E A f' e (zero_of E (ae_type e)) (ts ++ rest)) (UOk v' rest)) /\
+      (rmh -> marshal_entry A f e v' = MOk ts).
+
+  (* the struct-field loop: l is the list of fields still to come *)
+  Definition P_fields (f : nat) : Prop :=
+    forall st fields v l ts,
+      wt E A st v ->
+      forallb (field_wf E st) fields = true -> names_distinct (map fe_name fields) = true ->
+      (forall fe, In fe l -> In fe fields /\ fe_ignore fe = false /\ traverse (fe_route fe) v <> None) ->
+      prefix_free (map fe_route l) = true ->
+      marshal_fields A f l v = MOk ts ->
+      forall cur count rest, wt E A st cur -> (forall fe, In fe l -> blank_at E fe cur) ->
+      exists cur',
+        uconv (fun f' => unmarshal_fields E A f' st fields (count + Z.of_nat (length l)) cur count (ts ++ rest))
+              (UOk cur' rest) /\
+        wt E A st cur' /\
+        (forall fe, In fe l -> exists fv fv', traverse (fe_route fe) v = Some fv /\
+            traverse (fe_route fe) cur' = Some fv' /\ req E A (fe_type fe) fv fv' /\ wt E A (fe_type fe) fv') /\
+        (forall r0 ft0, route_okb E st r0 ft0 = true -> (forall fe, In fe l -> unrelated r0 (fe_route fe) = true) ->
+            (forall x, traverse r0 cur = Some x -> traverse r0 cur' = Some x) /\
+            (blankr E r0 ft0 cur -> blankr E r0 ft0 cur') /\
+            (traverse r0 v = None -> traverse r0 cur = None -> traverse r0 cur' = None)) /\
+        (rmh -> marshal_fields A f l cur' = MOk ts).
+
+  Definition P_all (f : nat) : Prop :=
+    P_marshal f /\ P_bare f /\ P_kind f /\ P_items f /\ P_entries f /\ P_map f /\ P_entry f /\ P_fields f.
+
+  Lemma P_zero : P_all 0.
+  Proof. repeat split; intro; intros; discriminate. Qed.
+
+  (* ---- values behind pointers ---- *)
+  Lemma step_marshal f : P_bare f -> P_marshal (S f).
+  Proof.
+    intros Hb t v ts Hw H. rewrite marshal_S in H. destruct (peel t) as [n base] eqn:Hp.
+    assert (Hnull : forall n', n = S n' -> exists v', v' = VPtr None /\ wt E A t v' /\
+              (forall rest, uconv (fun f' => unmarshal E A f' t (zero_of E t) ([Tok Null None] ++ rest)) (UOk v' rest)) /\
+              marshal A (S f) t v' = MOk [Tok Null None]).
+    { intros n' Hn. subst n. destruct (peel_S_ptr t n' base Hp) as [t' Ht].
+      exists (VPtr None). split; [reflexivity|]. split; [subst t; reflexivity|]. split.
+      - intros rest. eapply uconv_S; [|apply uconv_const]. intros f'. rewrite unmarshal_S, Hp. reflexivity.
+      - rewrite marshal_S, Hp. reflexivity. }
+    destruct (peel_deref_wt E A t v n base Hp Hw) as [(Hd & Hn & [x Hx]) | (bv & Hd & Hwb & Hv)]; rewrite Hd in H.
+    - (* a nil pointer on the way *)
+      inversion H; subst ts. destruct n as [|n']; [discriminate|].
+      destruct (Hnull n' eq_refl) as (v' & Hv' & Hw' & Hu & Hm). subst v'.
+      exists (VPtr None). repeat split; auto.
+      destruct (peel_S_ptr t n' base Hp) as [t' Ht]. subst t v.
+      destruct x as [y|]; [apply req_ptr_null; exact Hn | apply req_atom; reflexivity].
+    - destruct (Hb base bv ts Hwb H) as (bv' & Hr & Hw' & Hu & Hm).
+      destruct n as [|n'].
+      + (* no pointer *)
+        apply peel_zero_base in Hp as Hbase. subst base. cbn in Hv. subst bv.
+        exists bv'. repeat split; auto.
+        * intros rest. eapply uconv_S; [|apply Hu]. intros f'. rewrite unmarshal_S, Hp. reflexivity.
+        * intros Hrm. rewrite marshal_S, Hp. cbn [deref]. apply Hm. exact Hrm.
+      + assert (Hst : exists tk tg r, ts = Tok tk tg :: r).
+        { assert (Hm' : marshal A (S f) base bv = MOk ts).
+          { rewrite marshal_S, (peel_nonptr base (peel_base_not_ptr t _ base Hp)). exact H. }
+          destruct (marshal_starts A _ _ _ _ Hm') as (tk & tg & r & Hts & _). eauto. }
+        destruct Hst as (tk & tg & r & Hts). subst ts.
+        destruct (peel_S_ptr t n' base Hp) as [t' Ht].
+        assert (Hcase : tk = Null \/ tk <> Null) by (destruct tk; auto; right; discriminate).
+        destruct Hcase as [-> | Hnn].
+        * (* the target marshals as Null: comes back as a nil pointer *)
+          destruct (marshal_bare_null E A Hwf f base bv tg r Hwb H) as (-> & -> & Hnl).
+          destruct (Hnull n' eq_refl) as (v' & Hv' & Hw'' & Hu' & Hm''). subst v'.
+          exists (VPtr None). repeat split; auto.
+          subst t v. cbn [wrap_ptrs]. apply req_ptr_null. rewrite nullish_wrap. exact Hnl.
+        * exists (wrap_ptrs (S n') bv'). split; [|split; [|split]].
+          -- subst v. eapply req_wrap; eassumption.
+          -- eapply wt_wrap; eassumption.
+          -- intros rest. eapply uconv_S.
+             ++ intros f'. cbn [app]. rewrite (unmarshal_S_ptr E A f' t n' base _ tk tg _ Hp Hnn).
+                rewrite (inner_cur_zero E t (S n') base Hp). reflexivity.
+             ++ apply (uconv_bind _ (fun _ v r => UOk (wrap_ptrs (S n') v) r) bv' rest); [apply (Hu rest) | apply uconv_const].
+          -- intros Hrm. rewrite marshal_S, Hp, deref_wrap. apply Hm. exact Hrm.
+  Qed.
